@@ -575,7 +575,11 @@ def run_pending_response(ctx: Ctx, hc, only=None):
                 ln = int.from_bytes(w[:2], "little")
                 w += bytes(max(0, 2 + ln + 16 - len(w)))  # a forged longer length: complete the forged frame
                 w = bytes(w)
-                wreads = [w] if window == "flip" else [w[k : k + 1] for k in range(len(w))]
+                if window == "flip":
+                    wreads = [w]
+                else:  # byte-wise (a forged length can make the forged frame tens of KB long: then only its last bytes singly)
+                    head = max(0, len(w) - 400)
+                    wreads = ([w[:head]] if head else []) + [w[k : k + 1] for k in range(head, len(w))]
             elif window == "replay":
                 wreads = [r.choice(sent_frames)]
             elif window == "wrongctr":
